@@ -19,11 +19,11 @@ def prop(pid, level, technique, text, note, claimed=True, reason=None):
 
 prop("C01", "model_checking",
      "exhaustive enumeration of all ordered pairs of reachable replica states x initiator x backend x reconciliation parameters, each session executed on the real code and compared with the reference join",
-     "Every ordered pair of replica states reachable from small subsets of the entry universe is reconciled by the real Replica::sync_* functions (memory and file-backed redb, every parameter setting) and must terminate, converge to the reference join, mirror counters, report in its outcome exactly the entries and per-author newest timestamps the messages carried, be followed by an empty second session, and — after replica A's document is removed and created again in the same store — be restored by one more session initiated by either side.",
+     "Every ordered pair of replica states reachable from small subsets of the entry universe is reconciled by the real Replica::sync_* functions (memory and file-backed redb, every parameter setting) and must terminate, converge to the reference join, mirror counters, report in its outcome exactly the entries and per-author newest timestamps the messages carried, be followed by an empty second session, and — after replica A's document is removed and created again in the same store — be restored by one more session initiated by either side; a further family runs the pairs on replicas held open by store actors across both sessions.",
      "Bounded: subsets of <=2 (quick) / <=3 (thorough) entries plus a large-state family; blake3/XOR fingerprint collisions and values outside the alphabet are not covered.")
 prop("C02", "model_checking",
      "exhaustive enumeration of all operation sequences up to a depth over a small entry alphabet on the real replica, compared step by step with a reference model and with the from-scratch definition",
-     "All sequences (hence all permutations and duplications) of <=3 (quick) / <=4 (thorough) entries through remote insert, local insert and prefix delete on a real replica; return values, full dumps, both index paths and point lookups must equal the reference antichain model and spec(set(sequence)); a further family runs all sequences of <=2 writes of an author whose id ends in 0xFF next to raw entries of byte-neighbouring author ids, which must stay untouched.",
+     "All sequences (hence all permutations and duplications) of <=3 (quick) / <=4 (thorough) entries through remote insert, local insert and prefix delete on a real replica; return values, full dumps, both index paths and point lookups must equal the reference antichain model and spec(set(sequence)); a life-cycle family adds {remove and re-create the document, ask every question in the middle of the history} to a small alphabet; a further family runs all sequences of <=2 writes of an author whose id ends in 0xFF next to raw entries of byte-neighbouring author ids, which must stay untouched.",
      "Bounded depth and alphabet (keys '', a, a\\xff, ab, b, \\xff, \\xff\\xff; 3 timestamps; live/other-hash/tombstone); entries differing only in len are outside the alphabet.")
 prop("C08", "model_checking",
      "differential exhaustive enumeration: every pair of reachable states x parameter setting reconciled on in-memory redb, file-backed redb and an ordered-map reference backend driven by the crate's own algorithm (byte-identical transcripts), plus every range of an identifier lattice against the set-theoretic definitions of the storage primitives",
